@@ -124,6 +124,21 @@ def _one(case):
     return res
 
 
+def _session(seq):
+    """Several grids of one algorithm created one after the other in one process, sizes going down and up again (a grid
+    is a function of its name, not of what the process built before)."""
+    res = Result()
+    before = []
+    for alg, N in seq:
+        case = {"alg": alg, "N": N, "after": [list(x) for x in before]}
+        msgs = judge(case)
+        res.case(sample=case, nontrivial=N >= 2, key=case, classes=[f"alg={alg}", "session_history"])
+        if msgs:
+            res.violation(case, "; ".join(msgs))
+        before.append((alg, N))
+    return res
+
+
 def _polytope_sweep(arg):
     """Every N up to the level bound through the polytope getter the grid classes use: exactly N rows, a bit-exact prefix of
     the complete level (no Voronoi construction, so all N are affordable in the quick tier)."""
@@ -161,6 +176,8 @@ def replay(case):
     if "polytope" in case:
         r = _polytope_sweep((case["polytope"], case["levels"]))
         return [v["message"] for v in r.violations if v["case"]["N"] == case["N"]]
+    for alg, N in case.get("after", []):      # reproduce the process history
+        judge({"alg": alg, "N": N})
     return judge(case)
 
 
@@ -197,10 +214,19 @@ def run(tier):
     cases.sort(key=lambda c: -(c["N"] ** (2 if c["alg"] in ALGS4 + ("fulldiv",) else 1)))
     results = pmap(_one, cases)
     results += pmap(_polytope_sweep, [("cube4D", 2), ("ico", 3), ("cube3D", 3)])
+    sessions = [[("fulldiv", 40), ("fulldiv", 8), ("fulldiv", 40)], [("fulldiv", 8), ("fulldiv", 40), ("fulldiv", 8)],
+                [("cube4D", 60), ("cube4D", 8), ("cube4D", 41), ("cube4D", 60)], [("randomQ", 50), ("randomQ", 7), ("randomQ", 50)],
+                [("ico", 162), ("ico", 12), ("ico", 43), ("ico", 12)], [("cube3D", 98), ("cube3D", 8), ("cube3D", 27), ("cube3D", 98)],
+                [("randomS", 80), ("randomS", 9), ("randomS", 80)]]
+    if tier != "quick":
+        sessions += [[("fulldiv", 272), ("fulldiv", 40), ("fulldiv", 8), ("fulldiv", 272)],
+                     [("cube4D", 272), ("cube4D", 9), ("cube4D", 100)], [("ico", 642), ("ico", 13), ("ico", 200)],
+                     [("cube3D", 386), ("cube3D", 9), ("cube3D", 100)]]
+    results += pmap(_session, sessions)
     res = merge_results(results)
     res.violations.sort(key=lambda v: v["case"]["N"])
     rule = ("enumeration of (algorithm, N): " + ("every N in 1..50 (3D) / 1..42 (4D), level boundaries +-1, seeded larger N up to 700 / 110, 5 seeded N in 700..2562 and N=2562 for each direction algorithm, N=272 for both rotation algorithms, fulldiv 8 and 40"
             if tier == "quick" else "every N in 1..2563 (ico), 1..1539 (cube3D), 1..2563 (randomS), 1..272 (cube4D, randomQ), fulldiv 8/40/272")
-            + ", the zero grids and every N=1 name; plus, without building cells, every N in 1..272 through the hypercube half-selection (level 2) and every 7th N through the level-3 icosahedron / cube node getters. Non-trivial = N>=2; distinct = distinct (algorithm, N).")
+            + ", the zero grids and every N=1 name; plus, without building cells, every N in 1..272 through the hypercube half-selection (level 2) and every 7th N through the level-3 icosahedron / cube node getters. Plus sessions: several grids of one algorithm created one after the other in one process, sizes going down and up again (fulldiv 40-8-40, 8-40-8, cube4D 60-8-41-60, ...). Non-trivial = N>=2; distinct = distinct (algorithm, N, history).")
     return res, rule, {"exhaustive": tier == "thorough",
                        "assumptions": ["fulldiv 2080 is beyond the exploration bound (construction > 1 h)"]}
